@@ -388,6 +388,15 @@ func c15Exec(t testing.TB, w *vx.W, cs c15Case) {
 	s := c15srvNew(t, o)
 	defer s.finish()
 	m := &c15Mon{w: w, s: s, byID: map[uint32]*c15Slot{}, feat: map[string]bool{}}
+	applied, points, complete := 0, 0, false
+	defer func() {
+		// model-checking counters: events applied, quiescent points evaluated, complete sessions
+		w.Ctx().AddTransitions(int64(applied))
+		w.Ctx().AddStates(int64(points))
+		if complete {
+			w.Ctx().AddTraces(1)
+		}
+	}()
 
 	// connection preface + SETTINGS exchange
 	s.sendRaw([]byte(ClientPreface))
@@ -403,6 +412,7 @@ func c15Exec(t testing.TB, w *vx.W, cs c15Case) {
 		return
 	}
 	m.quiescent()
+	points++
 	if w.Failed() {
 		return
 	}
@@ -556,6 +566,8 @@ func c15Exec(t testing.TB, w *vx.W, cs c15Case) {
 			}
 		}
 		m.quiescent()
+		applied++
+		points++
 		if w.Failed() {
 			return
 		}
@@ -577,6 +589,7 @@ func c15Exec(t testing.TB, w *vx.W, cs c15Case) {
 		}
 	}
 	// outcome classification (coarse)
+	complete = true
 	w.Nontrivial()
 	var feats []string
 	if m.goAwayErr {
